@@ -27,6 +27,7 @@ var verifState struct {
 	log     []string
 	known   string
 	missing []string
+	stop    *verifStop
 }
 
 func verifReset(model map[string]uint64) {
@@ -38,6 +39,7 @@ func verifReset(model map[string]uint64) {
 	verifState.log = nil
 	verifState.known = ""
 	verifState.missing = nil
+	verifState.stop = nil
 }
 
 func verifValue(base string) uint64 {
@@ -81,15 +83,27 @@ func verifSortTies(on bool)           {}
 func verifConcretize(v uint64) uint64 { return v }
 func verifThreadsBlocked() int        { return -1 }
 
+// verifFail records the first failed assumption/assertion and ends the calling
+// goroutine (harness goroutines other than the main one must not crash the
+// test binary; deferred calls such as WaitGroup.Done still run).
+func verifFail(kind, msg string) {
+	verifState.mu.Lock()
+	if verifState.stop == nil {
+		verifState.stop = &verifStop{kind: kind, msg: msg}
+	}
+	verifState.mu.Unlock()
+	runtime.Goexit()
+}
+
 func verifAssume(cond bool) {
 	if !cond {
-		panic(verifStop{kind: "assume"})
+		verifFail("assume", "")
 	}
 }
 
 func verifAssert(cond bool, msg string) {
 	if !cond {
-		panic(verifStop{kind: "assert", msg: msg})
+		verifFail("assert", msg)
 	}
 }
 
